@@ -554,6 +554,10 @@ enum IOp {
     Size,
     Nth(usize),
     NthBack(usize),
+    /// the consuming adaptors, observed on a copy of the iterator: `it.clone().last()`, `it.clone().count()` (also `max`,
+    /// `min` and `rev().last()`, which must be the last / first / first of what is left)
+    Last,
+    Count,
 }
 
 fn iop_tok(o: IOp) -> String {
@@ -563,12 +567,14 @@ fn iop_tok(o: IOp) -> String {
         IOp::Size => "s".into(),
         IOp::Nth(n) => format!("t{n}"),
         IOp::NthBack(n) => format!("u{n}"),
+        IOp::Last => "l".into(),
+        IOp::Count => "c".into(),
     }
 }
 
 fn run_iter<I, T>(mut it: I, ops: &[IOp], idx: impl Fn(T) -> usize) -> String
 where
-    I: DoubleEndedIterator<Item = T>,
+    I: DoubleEndedIterator<Item = T> + Clone,
 {
     let mut toks = Vec::new();
     for &o in ops {
@@ -577,6 +583,16 @@ where
             IOp::Back => it.next_back().map(&idx),
             IOp::Nth(n) => it.nth(n).map(&idx),
             IOp::NthBack(n) => it.nth_back(n).map(&idx),
+            IOp::Last => {
+                let l = it.clone().last().map(&idx);
+                // the values come in ascending order: the greatest is the last, the least the first
+                if it.clone().map(&idx).max() != l || it.clone().map(&idx).min() != it.clone().next().map(&idx) || it.clone().rev().last().map(&idx) != it.clone().next().map(&idx) {
+                    toks.push("max/min/rev-disagree".to_string());
+                    continue;
+                }
+                l
+            }
+            IOp::Count => Some(it.clone().count()),
             IOp::Size => {
                 let (lo, hi) = it.size_hint();
                 if hi != Some(lo) {
@@ -748,7 +764,7 @@ pub fn c19(out: &mut Out, thorough: bool) {
     let ops_alpha = [
         IOp::Next, IOp::Back, IOp::Size, IOp::Nth(0), IOp::Nth(1), IOp::Nth(2), IOp::Nth(5), IOp::Nth(8),
         IOp::Nth(255), IOp::Nth(256), IOp::Nth(usize::MAX), IOp::NthBack(0), IOp::NthBack(1), IOp::NthBack(3),
-        IOp::NthBack(8), IOp::NthBack(9), IOp::NthBack(usize::MAX),
+        IOp::NthBack(8), IOp::NthBack(9), IOp::NthBack(usize::MAX), IOp::Last, IOp::Count,
     ];
     let depth = if thorough { 4 } else { 3 };
     let na = ops_alpha.len();
@@ -772,7 +788,7 @@ pub fn c19(out: &mut Out, thorough: bool) {
                 .map(|_| match out.rng.below(8) {
                     0..=2 => IOp::Next,
                     3 | 4 => IOp::Back,
-                    5 => IOp::Size,
+                    5 => *out.rng.pick(&[IOp::Size, IOp::Last, IOp::Count]),
                     6 => IOp::Nth(out.rng.below(4) as usize),
                     _ => IOp::NthBack(out.rng.below(4) as usize),
                 })
